@@ -319,6 +319,9 @@ func build(c *lib.Ctx) []*sched.Scenario {
 }
 
 func run(c *lib.Ctx) {
+	if c.Shard == 0 {
+		auditReachability(c)
+	}
 	scs := build(c)
 	c.Set("scenarios", len(scs))
 	shard, n := c.Shard, c.NShards
@@ -335,7 +338,16 @@ func run(c *lib.Ctx) {
 	}
 }
 
-func replay(c *lib.Ctx, raw json.RawMessage) { sched.Replay(c, build(c), raw) }
+func replay(c *lib.Ctx, raw json.RawMessage) {
+	var probe struct {
+		Audit string `json:"audit"`
+	}
+	if json.Unmarshal(raw, &probe) == nil && probe.Audit != "" {
+		auditReachability(c)
+		return
+	}
+	sched.Replay(c, build(c), raw)
+}
 
 func main() {
 	lib.Main(lib.Spec{
